@@ -10,7 +10,7 @@ import time
 
 VERIF = os.path.dirname(os.path.dirname(os.path.abspath(__file__)))
 REPO = os.environ.get("VERIF_REPO", "/repo")
-EVIDENCE_DIR = os.path.join(VERIF, "evidence")
+EVIDENCE_DIR = os.environ.get("VERIF_EVIDENCE_DIR") or os.path.join(VERIF, "evidence")
 REPLAY_DIR = os.path.join(EVIDENCE_DIR, "replay")
 
 EXIT_OK = 0
@@ -146,11 +146,13 @@ class Report:
         path = os.path.join(EVIDENCE_DIR, "%s.json" % self.prop)
         with open(path, "w") as fh:
             json.dump(ev, fh, indent=1, default=str)
+        if self.violations:
+            # a counterexample that reproduced against the real code stands on
+            # its own, whatever else went wrong in the run
+            return EXIT_VIOLATION
         if self.harness_errors:
             print("%s: harness error (%d); no verdict" % (self.prop, len(self.harness_errors)))
             return EXIT_HARNESS
-        if self.violations:
-            return EXIT_VIOLATION
         print(
             "%s [%s]: held on everything explored; wall %.1fs; inconclusive=%d known=%d"
             % (self.prop, self.tier, time.time() - self.t0, len(self.inconclusive), len(self.known)),
